@@ -149,7 +149,11 @@ private:
 
                 if( isdigit( ch ))
                 {
-                    _text_buffer[ k++ ] = static_cast< char >( ch );
+                    // keep the terminating 0 inside the buffer: digits beyond its capacity are dropped
+                    if( k < sizeof( _text_buffer ) - 1 )
+                    {
+                        _text_buffer[ k++ ] = static_cast< char >( ch );
+                    }
                 }
                 else if( k )
                 {
